@@ -335,6 +335,63 @@ fn fam_nfb(t: &mut Tracer, rng: &mut Rng, cx: &Ctx) {
     }
 }
 
+/// High fan-out states: a few prefixes each followed by most of the alphabet.  Such a state does
+/// not fit into the vacant slots of the active blocks and opens a block of its own (the fallback
+/// BASE = array length); with a small num_free_blocks blocks are closed while their neighbours
+/// are still sparse.
+fn fam_wide(t: &mut Tracer, rng: &mut Rng, cx: &Ctx) {
+    let var = if cx.prop == "C08" || rng.chance(1, 4) { Var::C } else { Var::B };
+    let nprefix = if cx.thorough { rng.range(4, 14) } else { rng.range(3, 4) };
+    let fan = if cx.thorough { rng.range(150, 255) } else { rng.range(130, 180) };
+    let base: u32 = if var == Var::C { 0x4e00 } else { 0 };
+    let universe: u32 = if var == Var::C { 300 } else { 256 };
+    let skip_zero = rng.chance(2, 3);
+    let mut kids: Vec<u32> = (0..universe).filter(|&x| !(skip_zero && x == 0)).collect();
+    rng.shuffle(&mut kids);
+    kids.truncate(fan.min(kids.len()));
+    let mut prefixes: Vec<u32> = vec![];
+    while prefixes.len() < nprefix {
+        let p = rng.below(universe as usize) as u32;
+        if !prefixes.contains(&p) {
+            prefixes.push(p);
+        }
+    }
+    let mut pats: Vec<Pat> = vec![];
+    if rng.chance(1, 2) {
+        pats.push(vec![base]); // the single label 0x00 / first character
+    }
+    for &p in &prefixes {
+        for &x in &kids {
+            pats.push(vec![base + p, base + x]);
+        }
+    }
+    // a few deeper patterns so that fail links and output chains are not trivial
+    for _ in 0..rng.range(0, 6) {
+        let a = prefixes[rng.below(prefixes.len())];
+        let b = kids[rng.below(kids.len())];
+        let c = kids[rng.below(kids.len())];
+        let p = vec![base + a, base + b, base + c];
+        if !pats.contains(&p) {
+            pats.push(p);
+        }
+    }
+    rng.shuffle(&mut pats);
+    let kind = *rng.pick(&kinds_for(cx.prop));
+    let alpha = Alpha {
+        pat: prefixes.iter().map(|&p| base + p).chain(kids.iter().take(6).map(|&x| base + x)).chain([base]).collect(),
+        extra: vec![base + universe + 1],
+    };
+    let hays: Vec<Rc<Vec<u8>>> = (0..3).map(|_| Rc::new(gen_haystack(rng, var, &alpha, 40, &pats[..pats.len().min(40)]))).collect();
+    let mut nfbs: Vec<u32> = if cx.prop == "C11" { if cx.thorough { vec![16, 1, 2, 3] } else { vec![16, 2] } } else { vec![*rng.pick(&[1u32, 2, 2, 3, 4])] };
+    if cx.prop == "C11" && cx.thorough {
+        nfbs.push(rng.range(4, 15) as u32);
+    }
+    for nfb in nfbs {
+        let spec = BuildSpec { var, kind, entry: "new", via_builder: true, nfb, pats: pats.clone() };
+        run_block::<u32>(t, rng, cx, &spec, &[], &hays, &[], false);
+    }
+}
+
 /// C10: collections with defects injected at random positions
 fn invalid_typed<V: Val>(t: &mut Tracer, rng: &mut Rng, _cx: &Ctx, var: Var, kind: Kind) {
     let alpha = pick_alphabet(rng, var);
@@ -712,15 +769,14 @@ fn fam_values(t: &mut Tracer, rng: &mut Rng, cx: &Ctx, i: u64) {
 /// (prop, tier, seed, i).
 pub fn family_of(prop: &str, i: u64) -> &'static str {
     match prop {
-        "C01" | "C02" | "C03" | "C05" | "C08" | "C13" => {
-            if i % 12 == 11 {
-                "dict"
-            } else {
-                "small"
-            }
-        }
+        "C01" | "C02" | "C03" | "C05" | "C08" | "C13" => match i % 12 {
+            11 => "dict",
+            5 => "wide",
+            _ => "small",
+        },
         "C04" | "C15" => match i % 12 {
             11 => "dict",
+            4 => "wide",
             2 | 6 | 9 => "shadow",
             _ => "small",
         },
@@ -738,6 +794,7 @@ pub fn family_of(prop: &str, i: u64) -> &'static str {
         }
         "C07" => match i % 12 {
             11 => "dict",
+            10 => "wide",
             3 | 7 => "decode",
             1 | 5 | 9 => "shadow",
             _ => "small",
@@ -749,13 +806,11 @@ pub fn family_of(prop: &str, i: u64) -> &'static str {
                 "invalid"
             }
         }
-        "C11" => {
-            if i % 4 == 3 {
-                "nfb"
-            } else {
-                "small"
-            }
-        }
+        "C11" => match i % 8 {
+            3 | 7 => "nfb",
+            5 => "wide",
+            _ => "small",
+        },
         "C12" => match i % 3 {
             0 => "lazy",
             _ => {
@@ -796,6 +851,7 @@ pub fn run_scenario(t: &mut Tracer, prop: &str, thorough: bool, seed: u64, i: u6
         "decode" => fam_decode(t, &mut rng, &cx),
         "shadow" => fam_shadow(t, &mut rng, &cx),
         "bigindex" => fam_bigindex(t, &mut rng, &cx),
+        "wide" => fam_wide(t, &mut rng, &cx),
         "values" => fam_values(t, &mut rng, &cx, i),
         other => panic!("harness: unknown family {other}"),
     }));
